@@ -15,6 +15,21 @@ import time
 
 import cxx2lean
 
+# specs of properties whose plugin is owned by another builder: the plugin only has to call
+#     info.update(bridge.regen_bridge(ctx, bridge.SPECS['C06']))      (inside its regen hook)
+# and to list 'RomeaProofs.Bridge.C06' in PROOF_MODULES
+SPECS = {
+    'C06': {
+        'id': 'C06',
+        'extra_filters': ['EPSILON'],      # anonymous-namespace constant
+        'sources': ['src/regression/ransac/RansacIterations.cpp'],
+        'imports': ['RomeaModel.Rotation'],       # DoubleConv: the constructor takes `const float & fittingProbability`
+        'opens': ['Romea.Rotation'],
+        'functions': [{'cxx': 'RansacIterations::RansacIterations'}, {'cxx': 'RansacIterations::update'},
+                      {'cxx': 'RansacIterations::get'}],
+    },
+}
+
 
 def regen_bridge(ctx, spec):
     t0 = time.time()
